@@ -507,12 +507,17 @@ class MapfileTransformer(Transformer):
 
         depth = 0
         quote = None
+        previous = ""  # the last character, other than a space, outside any string
         for idx, char in enumerate(exp.strip()):
             if quote:
                 # brackets within strings are not part of the expression structure
                 if char == quote:
                     quote = None
-            elif char in ("'", '"', "`"):
+                continue
+            if char in ("'", '"', "`"):
+                quote = char
+            elif char == "/" and previous in ("~", "*"):
+                # a regular expression following ~ or ~* - skip to its closing slash
                 quote = char
             elif char == "(":
                 depth += 1
@@ -520,6 +525,9 @@ class MapfileTransformer(Transformer):
                 depth -= 1
                 if depth == 0 and idx < len(exp.strip()) - 1:
                     return False
+
+            if char != " ":
+                previous = char
 
         return True
 
